@@ -150,6 +150,10 @@ def check(case):
     se = case.get("se", 1)       # starting_epoch: `epochs` is the index of the last epoch, so se + epochs - 1 keeps the epoch count
     kw = dict(epochs=se + case["epochs"] - 1, starting_epoch=se, pos_batch_size=case["pbs"], neg_batch_size=case["nbs"], k=case["k"], lr=case["lr"],
               optimizer=RecSGD, callbacks=[cb, guard])
+    if case["torch_seed"] % 4 == 0 and n <= 4 and case["epochs"] <= 4:
+        # re-entrant use: a further callback makes the public read-only calls of a monitoring script (normalisation, psi / rho, the three gradient
+        # functions, NLL, a save to memory) on the trained state from inside every hook; the update rule must be unaffected
+        kw["callbacks"] = [gen.busy_callback(rng=False, other=False), cb, guard] if case["torch_seed"] % 8 == 0 else [cb, guard, gen.busy_callback(rng=False, other=False)]
     if case["gamma"] is not None:
         sk = case.get("sched_kind", "step1")
         if sk == "exp":
